@@ -183,6 +183,24 @@ class Probe(SourceProxy):
         global_probes.remove(self)
         self._uninstall_tooling()
 
+    def __exit__(self, exc_type=None, exc=None, tb=None):
+        if self._root is not self:
+            self._root.__exit__(exc_type, exc, tb)
+            return
+
+        # Complete every pipeline and take the probe down even if a stage
+        # fails while completing (e.g. max() of nothing).
+        errors = []
+        for obs in self._observers:
+            try:
+                obs.on_completed()
+            except Exception as err:
+                errors.append(err)
+        self._observers.clear()
+        self._exit()
+        if errors:
+            raise errors[0]
+
     def activate(self):
         """Activate this probe."""
         self.__enter__()
